@@ -578,8 +578,43 @@ func mix(seed, n int) int {
 // BuildVariant builds the container for v choosing a construction route per
 // node from seed. Route 0 everywhere (seed == 0) equals Build.
 func BuildVariant(v V, seed int) any {
+	if seed != 0 && mix(seed, 9973)%9 == 0 {
+		// a ninth of the seeds: the whole tree is obtained from the parser (containers whose fields were
+		// stored by the parser and not through Add/Set); used only when the text denotes exactly this tree
+		if c := buildByParsing(v); c != nil {
+			return c
+		}
+	}
 	n := 0
 	return buildVariant(v, seed, &n)
+}
+
+// buildByParsing returns the container the library's parser builds for the JSON text of v, or nil if
+// the tree cannot be written as JSON without loss (non-finite floats, strings that are not valid UTF-8)
+// or the parser does not give exactly v back.
+func buildByParsing(v V) any {
+	if v.K != KList && v.K != KObject {
+		return nil
+	}
+	text := RenderJSON(v)
+	var c any
+	_, panicked := catch(func() {
+		if v.K == KList {
+			if l, err := at.ParseList(text); err == nil && l != nil {
+				c = l
+			}
+		} else if o, err := at.ParseObject(text); err == nil && o != nil {
+			c = o
+		}
+	})
+	if panicked || c == nil {
+		return nil
+	}
+	got, err := Snap(c)
+	if err != nil || !EqVBits(got, v) {
+		return nil
+	}
+	return c
 }
 
 func scalarEq(a, b V) bool {
@@ -857,7 +892,6 @@ func concatTwins(kids []V, built []any, seed, id int) {
 		}
 	}
 }
-
 
 // latin1 re-encodes a string so that every code point U+0080..U+00FF becomes the single byte of
 // that value; the result is in general not valid UTF-8. Cases keep the readable (valid) spelling
